@@ -25,6 +25,7 @@ THEOREMS = [
         "C13_TopicMapper_valid_implies_precond",
         "C13_Proxy_valid_implies_precond_partial",
         "C13_Proxy_precond_no_panic",
+        "C13_validators_modelled",
         "C13_refuted_wr_zero_total",
         "C13_refuted_rl_zero_period",
         "C13_refuted_sig_no_keystore",
@@ -48,11 +49,17 @@ _EXTRA["pkg/filters/builder/zz_verif_c13_hook.go"] = "harness/builder/zz_verif_c
 
 HARNESSES = [
     dict(name="pl", pkg="pkg/object/pipeline", files=["harness/pipeline/zz_verif_c13_test.go"],
-         run="TestVerifC13", groups=["spec"], timeout=1500, share=1.0, extra_overlay=_EXTRA),
+         run="TestVerifC13", groups=["spec"], timeout=1500, share=0.8, extra_overlay=_EXTRA),
+    dict(name="hs", pkg="pkg/object/httpserver", files=["harness/httpserver/zz_verif_c13_test.go"],
+         run="TestVerifC13HTTPServer", groups=["spec"], timeout=900, share=0.1, extra_overlay=_EXTRA),
+    dict(name="gf", pkg="pkg/object/globalfilter", files=["harness/globalfilter/zz_verif_c13_test.go"],
+         run="TestVerifC13GlobalFilter", groups=["spec"], timeout=900, share=0.05, extra_overlay=_EXTRA),
+    dict(name="mq", pkg="pkg/object/mqttproxy", files=["harness/mqttproxy/zz_verif_c13_test.go"],
+         run="TestVerifC13MQTTProxy", groups=["spec"], timeout=900, share=0.05, extra_overlay=_EXTRA),
 ]
 GROUPS = {"spec": "(check_spec pinned)"}
 EXPLAIN = {"spec": "(explain_spec pinned)"}
-CASES = {"quick": 700, "thorough": 12000}
+CASES = {"quick": 900, "thorough": 14000}
 RULE = ("cases: one raw configuration document of one kind (every registered filter kind, Retry, CircuitBreaker, Pipeline, ...) "
         "generated from the struct tags by reflection (optional fields present/absent, boundary numbers, empty lists, duplicates, "
         "null entries, dangling references, wrong types) + requests derived from the document; non-trivial = the document "
@@ -233,6 +240,9 @@ EXTERNAL = {
     "Kafka": "needs a Kafka broker", "KafkaMQTT": "needs a Kafka broker", "HeaderLookup": "needs the etcd cluster of a supervisor",
     "RemoteFilter": "calls a remote HTTP service", "WASMHost": "not registered in the default build (tag wasmhost)",
     "Proxy pools with serviceRegistry+serviceName": "need the ServiceRegistry system controller",
+    "HTTPServer with globalFilter": "looked up through a running supervisor",
+    "HTTPServer listener / HTTP3 / autocert runtime": "only the mux (rules, ip filters, regexps, cache) is loaded and served",
+    "MQTTProxy broker": "binds a TCP port and needs the cluster of a running supervisor (validation only here)",
 }
 
 
